@@ -82,6 +82,21 @@ COMMON_TB = [
 ]
 
 PROPS = {
+    "C20": {
+        "harness": "c20", "driver": "c20",
+        "lean_modules": ["BleveModel.Props.C20"],
+        "rule": ("in-memory scorch indexes of 4-12 parent documents (top-level title, nested arrays emps[] with name/role and offs[] "
+                 "with city; empty, one and several elements) built in several batches and then changed by separate update and "
+                 "delete batches, under the nested mapping and under the same mapping without nesting; random conjunction / "
+                 "disjunction / boolean trees to depth 3 (half of the compound queries keep all leaves inside one array); hit ids, "
+                 "Total, duplicates, DocCount and match-all compared with the Lean specification. Queries with must_not and with "
+                 "counts >= 2 across levels are reported under their own categories (known findings); counts >= 2 within one array "
+                 "are not judged (the statement does not fix their meaning). non-trivial = non-empty non-total answers"),
+        "trusted_base": COMMON_TB + ["zapx nested-document bookkeeping (ancestors, root counts)"],
+        "assumptions": [LEVEL_NOTE],
+        "floors": {"nested/search": 100, "unnested/search": 100},
+        "thorough_shards": 8,
+    },
     "C18": {
         "harness": "c18", "driver": "c18",
         "lean_modules": ["BleveModel.Props.C18"],
